@@ -591,3 +591,42 @@ func (p *Prog) LoopBodyMust(f *Func, loop ast.Stmt, cut []Edge, pred func(ast.No
 func (p *Prog) callPred(f *Func, names ...string) func(ast.Node) bool {
 	return func(n ast.Node) bool { return p.NodeCalls(f, n, names...) }
 }
+
+// AliasingAppends lists append calls whose first operand is (an alias of) a struct
+// field while the result is not stored back into that same field: with spare
+// capacity such an append writes into the shared backing array.
+type AliasAppend struct {
+	Call  *ast.CallExpr
+	Fn    *Func
+	Field string
+}
+
+func (p *Prog) AliasingAppends() []AliasAppend {
+	var out []AliasAppend
+	for _, f := range p.All {
+		if p.IsGenerated(f.Body) {
+			continue
+		}
+		inspectNoLit(f.Body, func(n ast.Node) bool {
+			ce, ok := n.(*ast.CallExpr)
+			if !ok || len(ce.Args) < 1 || p.CalleeName(f.Info(), ce) != "builtin.append" {
+				return true
+			}
+			v := p.R(f).Val(ce.Args[0])
+			if v.Kind != "field" {
+				return true
+			}
+			// stored back into the same field?
+			if as, ok := p.parents[ce].(*ast.AssignStmt); ok && len(as.Lhs) == 1 {
+				if lv := p.R(f).Val(as.Lhs[0]); lv.Kind == "field" && lv.String() == v.String() {
+					if _, direct := unparen(as.Lhs[0]).(*ast.SelectorExpr); direct {
+						return true
+					}
+				}
+			}
+			out = append(out, AliasAppend{ce, f, v.Name})
+			return true
+		})
+	}
+	return out
+}
